@@ -68,7 +68,7 @@ func asReader(rd *simio.Reader) io.Reader {
 
 var c18Entries = []string{"version.Parse", "version.UnmarshalText", "dependency.Parse", "dependency.ParseArch", "dependency.ParseArchitectures",
 	"ParagraphReader.All", "ParagraphReader.Next", "Unmarshal:DSC", "Unmarshal:Changes", "Unmarshal:SourceParagraph", "Unmarshal:BinaryParagraph", "Unmarshal:[]BinaryIndex", "Unmarshal:[]SourceIndex",
-	"ParseDsc", "ParseChanges", "ParseControl", "ParseBinaryIndex", "ParseSourceIndex", "changelog.Parse", "changelog.ParseOne", "Decoder.Decode:BinaryIndex"}
+	"ParseDsc", "ParseChanges", "ParseControl", "ParseBinaryIndex", "ParseSourceIndex", "changelog.Parse", "changelog.ParseOne", "Decoder.Decode:BinaryIndex", "Unmarshal:probe-struct"}
 
 func isStream(entry string) bool {
 	return !strings.HasPrefix(entry, "version.") && !strings.HasPrefix(entry, "dependency.")
@@ -237,6 +237,21 @@ func c18Invoke(entry string, input []byte, rd io.Reader) (res c18Result) {
 		if err != nil {
 			val = nil
 		}
+	case "Unmarshal:probe-struct":
+		// every field kind and tag option the decoder distinguishes (the library's own
+		// document types have no unsigned, boolean or numeric-list members)
+		var x c09All
+		err = control.Unmarshal(&x, rd)
+		x.SkipFunc = nil
+		val, checkBoth = struct {
+			N     int
+			U     uint
+			B     bool
+			Ints  []int
+			Uints []uint
+			Name  string
+			Lists [][]string
+		}{x.N, x.U, x.B, x.Ints, x.Uints, x.Name, [][]string{x.ListSp, x.ListComma, x.ListNL, x.ListStrip, x.ReqList}}, false
 	case "Decoder.Decode:BinaryIndex":
 		// one Decoder, one struct per call
 		dec, e := control.NewDecoder(rd, nil)
@@ -331,6 +346,13 @@ func c18Seed(t *rt.Tape, r *rt.Run, entry string) []byte {
 		return []byte(genDep(t, depOpts{Substvars: true, Stages: true, MaxRels: 4}, "c18.dep").render(t.Bool(1, 2, "c18.fold")))
 	case strings.HasPrefix(entry, "dependency.ParseArch"):
 		return []byte(strings.Join(archTexts(genArchList(t, "c18.arch")), " "))
+	case entry == "Unmarshal:probe-struct":
+		m := genC09All(t, r)
+		var b bytes.Buffer
+		if err := control.Marshal(&b, &m.v); err != nil {
+			return []byte("Req: x\nReq-List: y\nU: 5\nN: -3\nX-Uints: 1, 2\n")
+		}
+		return b.Bytes()
 	case strings.HasPrefix(entry, "changelog."):
 		_, doc := genChangelog(t, "quick")
 		return doc
@@ -364,7 +386,18 @@ func c18Mutate(t *rt.Tape, data []byte) []byte {
 		if len(out) > 0 {
 			p = t.Draw(len(out)+1, "mut.pos")
 		}
-		switch t.Draw(9, "mut.op") {
+		switch t.Draw(10, "mut.op") {
+		case 9: // a field's value emptied, or an element of a list emptied
+			ls := strings.SplitAfter(string(out), "\n")
+			li := t.Draw(len(ls), "mut.line")
+			if i := strings.Index(ls[li], ":"); i > 0 && ls[li][0] != ' ' && ls[li][0] != '#' {
+				if j := strings.Index(ls[li], ", "); j > i && t.Bool(1, 2, "mut.emptyelem") {
+					ls[li] = ls[li][:j] + ",," + ls[li][j+1:]
+				} else {
+					ls[li] = ls[li][:i+1] + []string{"\n", " \n", "  \t\n"}[t.Draw(3, "mut.emptykind")]
+				}
+				out = []byte(strings.Join(ls, ""))
+			}
 		case 8: // another spelling of a trailer date (some are legal for dpkg, none is RFC 1123 with two-digit day)
 			if m := dateRe.FindSubmatchIndex(out); m != nil {
 				wd, dd, mon, yyyy := string(out[m[2]:m[3]]), string(out[m[4]:m[5]]), string(out[m[6]:m[7]]), string(out[m[8]:m[9]])
